@@ -63,7 +63,7 @@ def run_sym(
         else:
             cl = list(claims(res))
         # vacuity twin: the path condition must be satisfiable, i.e. `False` must be refuted here
-        v, _ = prove(z3.BoolVal(False), pc, logic=logic, timeout_ms=timeout_ms)
+        v = _twin(pc, logic, timeout_ms)
         if v == "proved":
             stats["vacuous"] += 1
             check.obligation(group + "/twin", "vacuous")
@@ -73,11 +73,17 @@ def run_sym(
             if isinstance(claim, bool):
                 claim = z3.BoolVal(claim)
             st, model = None, None
-            if z3.is_implies(claim):
+            if z3.is_true(claim):
+                st = "proved"  # ground fact established by the harness on the realised objects of this path
+            elif z3.is_false(claim) and v != "refuted":
+                st = "unknown"  # a false ground fact on a path whose feasibility the solver could not establish
+            if st is None and z3.is_implies(claim):
                 # cheap pre-filter: an implication whose antecedent contradicts the path condition holds trivially
                 r, _ = satisfiable(list(pc) + [claim.arg(0)], logic=None, timeout_ms=2000)
                 if r == "unsat":
                     st = "proved"
+            if st is None and z3.is_false(claim):
+                st, model = "refuted", _witness(pc, logic, timeout_ms)
             if st is None:
                 st, model = prove(claim, pc, logic=logic, timeout_ms=timeout_ms)
             stats[st] += 1
@@ -114,7 +120,46 @@ def run_sym(
     return stats
 
 
+def _free_inputs(pc):
+    seen, out, todo = set(), [], list(pc)
+    while todo:
+        e = todo.pop()
+        if e.get_id() in seen:
+            continue
+        seen.add(e.get_id())
+        if z3.is_const(e) and e.decl().kind() == z3.Z3_OP_UNINTERPRETED and z3.is_real(e):
+            if not e.decl().name().startswith("__"):
+                out.append(e)
+        else:
+            todo.extend(e.children())
+    return sorted(out, key=lambda v: v.decl().name())
+
+
+def _twin(pc, logic, timeout_ms):
+    """Reachability twin: is the path condition satisfiable (i.e. would `assert False` here be violated)?
+    First try to exhibit a witness with the inputs pinned to a generic rational point (cheap even when the path
+    condition carries sqrt / division side conditions); fall back to the general query."""
+    if not pc:
+        return "refuted"
+    inputs = _free_inputs(pc)
+    if inputs:
+        for salt in (0, 1):
+            pins = [v == z3.RealVal(f"{(37 * (i + 1) + 11 * salt) % 23 - 9}/{2 + ((i + salt) % 3)}") for i, v in enumerate(inputs)]
+            r, _ = satisfiable(list(pc) + pins, logic=logic, timeout_ms=1500)
+            if r == "sat":
+                return "refuted"
+    v, _ = prove(z3.BoolVal(False), pc, logic=logic, timeout_ms=min(timeout_ms, 3000))
+    return v
+
+
+def _witness(pc, logic, timeout_ms):
+    r, m = satisfiable(list(pc), logic=logic, timeout_ms=min(timeout_ms, 3000))
+    return m
+
+
 def _nice_models(claim, pc, model):
+    if model is None:
+        return
     """Yield candidate counterexample models: integer-valued inputs in shrinking boxes first, the solver's own model last."""
     inputs = [d for d in model.decls() if d.arity() == 0 and not d.name().startswith("__")]
     for box in (3, 8, 40):
